@@ -33,7 +33,8 @@ def scenarios(rnd, quick):
     def add(sz, n, mutate, kind=K_FW, ext=EXT["co"], tag=""):
         total = n * sz
         img = bytearray(ts004.make_image(rnd, n, sz))
-        region = bytearray(img) + bytearray(b"\xff" * (max(68, total) + 8 - len(img)))      # what the flash holds beyond the image: erased
+        room = slot - session.DRO
+        region = bytearray(img) + bytearray(b"\xff" * (min(max(68, total) + 8, room) - len(img)))      # what the flash holds beyond the image: erased
         if total < 4:
             region[:4] = ts004.crc32_cksum(b"").to_bytes(4, "little")                       # prefix bytes beyond a tiny image still hold the CRC word
         note = mutate(region, total) if mutate else ""
@@ -60,7 +61,7 @@ def scenarios(rnd, quick):
         region[pos // 8] ^= 1 << (pos % 8)
         return " flip signature bit %d" % pos
     def flip_beyond(region, total):
-        if total >= 68:
+        if total >= 68 and total < len(region):
             region[total] ^= 0x10                    # first byte beyond count*size: must not matter
         return " flip beyond"
     for _ in range(300 if quick else 6000):
